@@ -77,6 +77,8 @@ MANY = [
      bytes.fromhex("0848ea6828" "0808e82828")),
     ("code-block arguments first, in the middle, and two of them", "*=0x008000\n.macro wrap(code, v) {\n.db v\n{{ code }}\n.db v\n}\n.macro mid(a, code, b) {\n.db a\n{{ code }}\n.db b\n}\n"
      ".macro two(x, y) {\n{{ x }}\n{{ y }}\n}\nwrap({\nnop\n}, 7)\nmid(1, {\nclc\n}, 2)\ntwo({\nsei\n}, {\nnop\n})\n", bytes.fromhex("07ea07" "011802" "78ea")),
+    ("macros whose names are spelled like mnemonics (rep, inc, asl) -- an identifier directly followed by `(` is an application", "*=0x008000\n.macro rep(n, code) {\n.for k := 0, n {\n{{ code }}\n}\n}\n"
+     ".macro inc(v) {\n.db v + 1\n}\n.macro asl() {\nasl\n}\nrep(3, {\nnop\n})\ninc(5)\nasl()\nrep(1, {\nclc\n})\n", bytes.fromhex("eaeaea" "06" "0a" "18")),
     ("recursion of depth 120 ended by .if", "*=0x008000\n.macro down(n) {\n.db n\n.if n {\ndown(n - 1)\n}\n}\ndown(120)\n", bytes(range(120, -1, -1))),
 ]
 
